@@ -451,6 +451,10 @@ class SymStr:
                 elif q and q[-1][0] == "atom" and q[-1][2] == "raw":
                     q[-1] = ("atom", q[-1][1] + ".trim_end", "raw")
                 return [(OK, mk(q), st)]
+            if c in ("alloc::str::<impl str>::to_lowercase", "alloc::str::<impl str>::to_ascii_lowercase", "alloc::str::<impl str>::to_uppercase", "alloc::str::<impl str>::to_ascii_uppercase"):
+                low = "lower" in c
+                # an atom stands for an arbitrary text of its class (mixed case possible): converting it gives another text
+                return [(OK, mk([("lit", x[1].lower() if low else x[1].upper()) if x[0] == "lit" else (x if x[2] == "int" else ("atom", x[1] + (".lower" if low else ".upper"), x[2])) for x in p0]), st)]
             if c == "alloc::str::<impl str>::to_lowercase":
                 if all(x[0] == "lit" or x[2] in ("int",) for x in p0):
                     return [(OK, mk([("lit", x[1].lower()) if x[0] == "lit" else x for x in p0]), st)]
